@@ -263,6 +263,48 @@ func CheckC01(run *ev.Run) {
 		}
 	}
 	st["mangler-names"] = run.Traces
+	// renameTimeout against the Lean model on random sets of parameter names (incl. the whole fixed chain)
+	{
+		m := driver()
+		chain := []string{"timeout", "requesttimeout", "httprequesttimeout", "swaggertimeout", "operationtimeout", "optimeout", "opertimeout", "opertimeout1", "opertimeout11", "id", "limit", "timeout1", "requesttimeout1"}
+		for i := 0; i < 200; i++ {
+			var seen []string
+			for _, c := range chain {
+				if r.Chance(1, 2) {
+					seen = append(seen, c)
+				}
+			}
+			start := r.Pick([]string{"timeout", "timeout", "Timeout", "requestTimeout", "opTimeout", "x"})
+			real := generator.VerifRenameTimeout(seen, start)
+			mb, _ := json.Marshal(map[string]interface{}{"op": "names.renameTimeout", "seen": seen, "name": start})
+			out, merr := m.Call(mb)
+			var mr struct {
+				R    string `json:"r"`
+				Name string `json:"name"`
+				Fuel bool   `json:"fuel"`
+			}
+			if merr == nil {
+				_ = json.Unmarshal(out, &mr)
+			}
+			run.Traces++
+			if mr.R != "ok" {
+				run.Broken("corr:C01:driver", "model driver failed", nil)
+				break
+			}
+			if mr.Fuel || mr.Name != real {
+				st["RENAMETIMEOUT-DIFFERS"]++
+				run.Broken("corr:C01:renameTimeout", fmt.Sprintf("Lean renameTimeout and the generator disagree on seen=%v start=%q: model %q (fuel exhausted: %v), real %q", seen, start, mr.Name, mr.Fuel, real), map[string]interface{}{"seen": seen, "start": start})
+			} else {
+				st["renameTimeout-agrees"]++
+			}
+			for _, sname := range seen {
+				if strings.ToLower(real) == sname {
+					run.Deviation("timeout-field-collides", fmt.Sprintf("renameTimeout returns %q which collides with parameter %q", real, sname), map[string]interface{}{"seen": seen, "start": start})
+				}
+			}
+		}
+		m.Close()
+	}
 
 	curKey := func(k string) string { return k }
 	// generation is sequential (in-process, changes the working directory); compilation runs on a pool; results are
